@@ -22,7 +22,7 @@ CHECKS = {
          "Coq proof by invariant + correspondence"),
  "C09": ("No-escape theorem on the model over the fault oracle; systematic fault injection at every socket operation and byte offset on the real client; exhaustive connect-outcome patterns against the real _connect_sock.",
          "Coq proof over all fault scripts of the model + fault enumeration of the tie"),
- "C13": ("Release theorem on the model's abandonment semantics for every yield site and mechanism; abandonment at every event index x 4 mechanisms on the real generators (CPython finalisation is modelled, the tie checks it).",
+ "C13": ("Release theorem on the model's abandonment semantics for every yield site and mechanism; abandonment at every event index x 5 mechanisms (incl. reconnecting the object before the old iterator is released) on the real generators (CPython finalisation is modelled, the tie checks it).",
          "Coq proof over all yield sites of the model + exhaustive abandonment runs"),
  "C14": ("Pong theorem on the model (each Ping event is immediately preceded by its Pong while no Close was sent); streams with pings anywhere on the real client.",
          "Coq proof + correspondence"),
